@@ -7,6 +7,7 @@ use crate::duckscript::types::error::ScriptError;
 use crate::duckscript::types::env::Env;
 use crate::duckscript::types::runtime::StateValue;
 use crate::trusted::*;
+broadcast use crate::trusted::strings;
 
 /// continue/goto/exit store the value in the output variable or, with no value, delete it
 pub open spec fn upd(vars: Map<String, String>, out: Option<String>, v: Option<String>) -> Map<String, String> {
@@ -23,8 +24,25 @@ pub open spec fn labels_upto(instrs: Seq<Instruction>, n: int) -> Map<String, us
         match label_of(instrs[n - 1]) { Some(l) => m.insert(l, (n - 1) as usize), None => m }
     }
 }
-/// abstract callee: argument binding (decided in unit expansion)
-pub uninterp spec fn bind_spec(vars: Map<String, String>, args: Option<Seq<String>>, meta: InstructionMetaInfo) -> Seq<String>;
+/// argument binding, decided in unit expansion (C02): the received arguments are THE strings whose texts are what the
+/// written arguments contribute (bind_views: one contribution per written argument, a spread reference several)
+pub open spec fn bind_spec(vars: Map<String, String>, args: Option<Seq<String>>, meta: InstructionMetaInfo) -> Seq<String> {
+    choose|a: Seq<String>| crate::duckscript::pspec::vstrs(a) == crate::duckscript::xspec::bind_views(vars, match args { Some(x) => Some(crate::duckscript::pspec::vstrs(x)), None => None })
+}
+/// strings with the same texts are the same strings
+pub proof fn lemma_bind_unique(a: Seq<String>, vars: Map<String, String>, args: Option<Seq<String>>, meta: InstructionMetaInfo)
+    requires crate::duckscript::pspec::vstrs(a) == crate::duckscript::xspec::bind_views(vars, match args { Some(x) => Some(crate::duckscript::pspec::vstrs(x)), None => None })
+    ensures a == bind_spec(vars, args, meta)
+{
+    let b = bind_spec(vars, args, meta);
+    assert(crate::duckscript::pspec::vstrs(b) == crate::duckscript::pspec::vstrs(a));
+    assert(a.len() == b.len()) by { assert(crate::duckscript::pspec::vstrs(a).len() == a.len()); assert(crate::duckscript::pspec::vstrs(b).len() == b.len()); }
+    assert forall|i: int| 0 <= i < a.len() implies a[i] == b[i] by {
+        assert(crate::duckscript::pspec::vstrs(a)[i] == a[i]@); assert(crate::duckscript::pspec::vstrs(b)[i] == b[i]@);
+        assert(skey(a[i]@) == a[i]); assert(skey(b[i]@) == b[i]);
+    }
+    assert(a =~= b);
+}
 pub open spec fn oseq(o: Option<Vec<String>>) -> Option<Seq<String>> { match o { Some(v) => Some(v@), None => None } }
 
 /// one instruction dispatch, from the statement: empty / pre-process / command-less lines are no-ops,
